@@ -7,6 +7,9 @@
 //	                          e: end to end — POSTed to http://martian.proxy/configure through a real proxy
 //	                          wired as cmd/proxy; from then on t/q/r/qbad/rbad/cget are real HTTP requests
 //	                          through that proxy, see e2e.go)
+//	tree r NODE               re-POST a configuration to the martianhttp.Modifier in force (wiring m or e; otherwise as m):
+//	                          the handlers must from then on read the NEW tree only
+//	set <q|s> NODE            Modifier.SetRequestModifier / SetResponseModifier with that side of NODE (wiring m)
 //	cget                      GET the configure endpoint (an API request passing through the tree)
 //	  NODE  := L <scope> LEAF | G <scope> <agg> <n> NODE*n | F <scope> COND <hasElse> NODE [NODE] |
 //	           P <scope> <n> (<priority> NODE)*n        (priority.Group: no verifier, hides what is below it)
@@ -47,6 +50,7 @@ import (
 	"time"
 
 	"github.com/google/martian/v3"
+	mapi "github.com/google/martian/v3/api"
 	_ "github.com/google/martian/v3/failure"
 	_ "github.com/google/martian/v3/fifo"
 	_ "github.com/google/martian/v3/header"
@@ -65,6 +69,8 @@ import (
 )
 
 type P struct{}
+
+var apiForwarder = mapi.NewForwarder("127.0.0.1", 1)
 
 func init() {
 	core.Register(P{})
@@ -639,11 +645,12 @@ type impl struct {
 	guarded map[int][]*watch
 	above   map[int]string
 	w       *e2eWorld // wiring e
+	mod     *martianhttp.Modifier // wiring m: the Modifier the handlers are attached to
 }
 
 func newImpl() *impl {
 	m := martianhttp.NewModifier()
-	i := &impl{reqmod: m, resmod: m, vh: verify.NewHandler(), rh: verify.NewResetHandler()}
+	i := &impl{reqmod: m, resmod: m, vh: verify.NewHandler(), rh: verify.NewResetHandler(), mod: m}
 	i.vh.SetRequestVerifier(m)
 	i.vh.SetResponseVerifier(m)
 	i.rh.SetRequestVerifier(m)
@@ -652,11 +659,11 @@ func newImpl() *impl {
 }
 
 // install returns nil when the configuration was rejected (the previous tree stays).
-func install(wiring string, n *node) *impl {
+func install(wiring string, n *node, cur *impl) *impl {
 	watchReg.mu.Lock()
 	watchReg.m = map[int][]*watch{}
 	watchReg.mu.Unlock()
-	i := install1(wiring, n)
+	i := install1(wiring, n, cur)
 	watchReg.mu.Lock()
 	reg := watchReg.m
 	watchReg.m = nil
@@ -678,7 +685,7 @@ func install(wiring string, n *node) *impl {
 			walk(k, lock)
 		}
 	}
-	walk(n, map[string]string{"m": "martianhttp.Modifier", "d": ""}[wiring])
+	walk(n, map[string]string{"m": "martianhttp.Modifier", "r": "martianhttp.Modifier", "d": ""}[wiring])
 	return i
 }
 
@@ -700,8 +707,28 @@ func (i *impl) overlaps() string {
 	return ""
 }
 
-func install1(wiring string, n *node) *impl {
+func install1(wiring string, n *node, cur *impl) *impl {
 	b, _ := json.Marshal(n.json())
+	if wiring == "r" {
+		switch {
+		case cur != nil && cur.w != nil:
+			code, _, _, err := cur.w.apiCall("POST", "/configure", b)
+			if err != nil || code != 200 {
+				return nil
+			}
+			core.Count("reconfigure:e2e")
+			return &impl{w: cur.w}
+		case cur != nil && cur.mod != nil:
+			rw := httptest.NewRecorder()
+			cur.mod.ServeHTTP(rw, httptest.NewRequest("POST", "http://martian.proxy/configure", bytes.NewReader(b)))
+			if rw.Code != 200 {
+				return nil
+			}
+			core.Count("reconfigure:same-modifier")
+			return &impl{reqmod: cur.reqmod, resmod: cur.resmod, vh: cur.vh, rh: cur.rh, mod: cur.mod}
+		}
+		wiring = "m"
+	}
 	if wiring == "e" {
 		w, err := newE2E()
 		if err != nil {
@@ -759,7 +786,13 @@ func (i *impl) traffic(m *msg) (reqErr, resErr bool) {
 	}
 	defer remove()
 	if m.api {
-		ctx.APIRequest()
+		// the real api.Forwarder marks the context (that is what makes a request an API request in
+		// cmd/proxy); it also redirects the URL to the API server, which is undone here so that the
+		// filters below see the same exchange as the model
+		sch, host := req.URL.Scheme, req.URL.Host
+		apiForwarder.ModifyRequest(req)
+		req.URL.Scheme, req.URL.Host = sch, host
+		_ = ctx
 	}
 	if i.reqmod != nil {
 		reqErr = i.reqmod.ModifyRequest(req) != nil
@@ -1151,6 +1184,8 @@ type oracle struct {
 	// collapse: the exchange id is not visible in the messages (end-to-end tier: no fragment on the
 	// wire); compare per verifier kind
 	collapse bool
+	// old: ids of exchanges that went through a configuration this one has replaced
+	old map[int]bool
 }
 
 func newOracle(n *node) (*oracle, bool) {
@@ -1277,6 +1312,8 @@ func (o *oracle) check(msgs []string) (fail, sig string) {
 			return "failure lost: " + what, "c13:lost"
 		case o.api[k.id]:
 			return "API request counted: " + what, "c13:api-counted"
+		case o.old[k.id] && e == 0:
+			return "failure recorded in a configuration that has since been replaced is still reported: " + what, "c13:stale-after-reconfigure"
 		case k.id >= 0 && o.epoch[k.id] < o.resets && e == 0:
 			return "failure from before the last reset still reported: " + what, "c13:stale-after-reset"
 		case k.tag == "ping" && o.resets > 0:
@@ -1336,14 +1373,14 @@ func (e *ex) Do(op string) core.Result {
 	f := strings.Split(op, " ")
 	switch f[0] {
 	case "tree":
-		if len(f) < 3 || (f[1] != "m" && f[1] != "d" && f[1] != "e") {
+		if len(f) < 3 || (f[1] != "m" && f[1] != "d" && f[1] != "e" && f[1] != "r") {
 			return core.Result{Impl: "bad-op"}
 		}
 		n, rest, ok := parseNode(f[2:], 0)
 		if !ok || len(rest) != 0 {
 			return core.Result{Impl: "bad-op"}
 		}
-		im := install(f[1], n)
+		im := install(f[1], n, e.im)
 		or, valid := newOracle(n)
 		core.Count("tree:" + map[bool]string{true: "accepted", false: "rejected"}[im != nil])
 		if (im != nil) != valid {
@@ -1352,7 +1389,18 @@ func (e *ex) Do(op string) core.Result {
 		if im == nil {
 			return core.Result{Impl: "tree err"}
 		}
-		e.Close()
+		if e.im == nil || e.im.w == nil || e.im.w != im.w {
+			e.Close()
+		}
+		or.old = map[int]bool{}
+		if e.or != nil {
+			for id := range e.or.old {
+				or.old[id] = true
+			}
+			for id := range e.or.epoch {
+				or.old[id] = true
+			}
+		}
 		e.im, e.or = im, or
 		e.or.collapse = im.w != nil
 		if im.w != nil {
@@ -1381,6 +1429,54 @@ func (e *ex) Do(op string) core.Result {
 		a, b := e.im.traffic(m)
 		e.or.traffic(m)
 		return core.Result{Impl: "t " + b01(a) + " " + b01(b)}
+	case "set":
+		if len(f) < 4 || (f[1] != "q" && f[1] != "s") || e.im.w != nil {
+			return core.Result{Impl: "bad-op"}
+		}
+		n, rest, ok := parseNode(f[2:], 0)
+		if !ok || len(rest) != 0 {
+			return core.Result{Impl: "bad-op"}
+		}
+		b, _ := json.Marshal(n.json())
+		r, err := parse.FromJSON(b)
+		side, valid := project(n, f[1] == "q")
+		if _, v2 := project(n, f[1] != "q"); !v2 {
+			valid = false
+		}
+		if (err == nil) != valid {
+			return core.Result{Impl: "set ?", Fail: fmt.Sprintf("configuration accepted=%v but scope rules say valid=%v", err == nil, valid), Sig: "c13:config"}
+		}
+		if err != nil {
+			return core.Result{Impl: "set err"}
+		}
+		switch {
+		case e.im.mod != nil && f[1] == "q":
+			e.im.mod.SetRequestModifier(r.RequestModifier())
+		case e.im.mod != nil:
+			e.im.mod.SetResponseModifier(r.ResponseModifier())
+		case f[1] == "q": // direct wiring: the harness itself re-attaches the handlers to the new side
+			e.im.reqmod = r.RequestModifier()
+			v, _ := e.im.reqmod.(verify.RequestVerifier)
+			e.im.vh.SetRequestVerifier(v)
+			e.im.rh.SetRequestVerifier(v)
+		default:
+			e.im.resmod = r.ResponseModifier()
+			v, _ := e.im.resmod.(verify.ResponseVerifier)
+			e.im.vh.SetResponseVerifier(v)
+			e.im.rh.SetResponseVerifier(v)
+		}
+		if f[1] == "q" {
+			e.or.req = side
+		} else {
+			e.or.res = side
+		}
+		core.Count("set-modifier:" + f[1])
+		res := core.Result{Impl: "set ok"}
+		// the handlers read the pair in force: this side is fresh, the other side keeps its ledger
+		if _, rq := e.checkedQuery(); rq.Fail != "" {
+			res.Fail, res.Sig = "right after Set"+map[string]string{"q": "Request", "s": "Response"}[f[1]]+"Modifier: "+rq.Fail, rq.Sig
+		}
+		return res
 	case "tb":
 		if len(f) != 12 || e.im.w != nil {
 			return core.Result{Impl: "bad-op"}
